@@ -77,10 +77,10 @@ def FS():
 
 
 def cov(m, H):
-    """Cov(m,H) = 100 * Used(H) / Tot ; NaN iff Tot == 0   (a Float term)"""
+    """Cov(m,H) = 100 * Used(H) / Tot ; NaN iff undefined: no lines (Tot == 0) or no platforms (H empty)   (a Float term)"""
     tot = Tot()(m.valarr, m.dom)
     used = Used()(m.valarr, H, m.dom)
-    return z3.If(tot == 0, FS().NaN, FS().Fin(z3.ToReal(used) / z3.ToReal(tot) * 100))
+    return z3.If(z3.Or(tot == 0, H == z3.K(_p, z3.BoolVal(False))), FS().NaN, FS().Fin(z3.ToReal(used) / z3.ToReal(tot) * 100))
 
 
 def CovSum():
@@ -106,10 +106,12 @@ def avg(m, H):
 
 
 def dist(m, a, b):
-    """Dist(m,a,b) = Xo/Un ; NaN iff Un == 0"""
+    """Dist(m,a,b) = Jaccard distance of the two line sets = Xo/Un ; 0 when both are empty (Un == 0: equal sets);
+    NaN iff undefined: the table has no lines (Tot == 0)"""
     un = Un()(m.valarr, a, b, m.dom)
     xo = Xo()(m.valarr, a, b, m.dom)
-    return z3.If(un == 0, FS().NaN, FS().Fin(z3.ToReal(xo) / z3.ToReal(un)))
+    tot = Tot()(m.valarr, m.dom)
+    return z3.If(tot == 0, FS().NaN, z3.If(un == 0, FS().Fin(z3.RealVal(0)), FS().Fin(z3.ToReal(xo) / z3.ToReal(un))))
 
 
 def pairs_of(S):
